@@ -389,7 +389,21 @@ class Ctx:
         if len(self.cov["samples"]) < limit:
             self.cov["samples"].append(x)
 
+    def in_scope(self, sig):
+        sc = getattr(self, "scope", None)
+        if not sc:
+            return True
+        if "allow" in sc:
+            return any(sig.startswith(p) for p in sc["allow"])
+        return not any(sig.startswith(p) for p in sc.get("deny", ()))
+
     def add(self, kind, sig, what, replay):
+        # Streams shared between properties (writer / reader / round trip) observe more than one property speaks about: a check
+        # keeps the findings of ITS property (ctx.scope) and only counts the others, so that a defect of another property does
+        # not raise this check's alarm.  Proof obligations and harness failures are always kept.
+        if kind != "proof" and sig != "harness-exception" and sig != "no-termination" and not self.in_scope(sig):
+            self.count("out_of_scope_observation:" + sig.split(":")[0] + ":" + sig.split(":")[1].split("=")[0][:24] if ":" in sig else "out_of_scope_observation:" + sig)
+            return
         # keep at most a few findings per signature
         n = sum(1 for f in self.findings if f.sig == sig)
         if n < 3:
